@@ -67,7 +67,8 @@ Record env := mk_env {
   e_role : nat;                   (* argument of GetRoleMailboxDB at this command's AccRole sites *)
   e_visits : list site;           (* the sites this execution passes, in order *)
   e_target : sel_target;          (* SELECT/EXAMINE only *)
-  e_handshake : bool }.           (* STARTTLS only: the TLS handshake succeeded *)
+  e_handshake : bool;             (* STARTTLS only: the TLS handshake succeeded *)
+  e_reply_ok : bool }.            (* the tagged completion of this line is OK *)
 
 Inductive event :=
 | Touch (s : store)        (* a store handle was obtained (read or write follows) *)
@@ -161,6 +162,7 @@ Definition do_select (clears : bool) (st : cstate) (e : env) : cstate * list eve
 Definition unselect (st : cstate) : cstate :=
   mk_c (c_tls st) (c_auth st) false (c_user st) (c_isrole st) (c_role st) (c_origin st) (c_roles st).
 
+Definition is_login (w : string) : bool := String.eqb w "LOGIN" || String.eqb w "AUTHENTICATE".
 Definition is_select (w : string) : bool := String.eqb w "SELECT" || String.eqb w "EXAMINE".
 Definition is_unselect (w : string) : bool := String.eqb w "CLOSE" || String.eqb w "UNSELECT".
 
@@ -191,6 +193,12 @@ Definition step (t : facts) (st : cstate) (w : string) (e : env) : option (cstat
     match fold_left (visit e) (e_visits e) (Some (st, [])) with
     | None => None
     | Some (st', evs) =>
+        (* [f_auth_final]: no tagged NO/BAD can follow state.Authenticated := true,
+           so an execution that marked the session authenticated and is answered
+           with a refusal does not exist *)
+        if f_auth_final t && existsb (fun ev => match ev with Authd _ => true | _ => false end) evs && negb (e_reply_ok e)
+        then None
+        else
         (* CLOSE and UNSELECT clear the selection when they get past their guards *)
         let st'' := if is_unselect w && c_auth st && c_sel st then unselect st' else st' in
         Some (st'', evs)
@@ -225,7 +233,7 @@ Definition guards_ok (t : facts) : bool :=
     | AccUserSelf | AccUserOther | AccSelected | AccRole | AccShared =>
         s_auth s || (s_tls s && s_ok200 s)
     | Backend => s_tls s
-    | SetAuth => s_tls s && s_ok200 s
+    | SetAuth => s_tls s && s_ok200 s && is_login (s_cmd s)
     | UseSel => s_auth s && s_sel s                 (* C06 (b) *)
     | SetSel => is_select (s_cmd s)
     | SetField => is_select (s_cmd s) || (s_tls s && s_ok200 s)
